@@ -31,13 +31,18 @@ structure Params where
   /-- the test tables of both runs -/
   na : List Str
   nt : List Str
+  /-- open mode: the special block is an ordinary (untainted) group; the extra first child it has on
+  the right (a `no_op` group without router node whose parents are row groups without loose exit)
+  is then inert -/
+  op : Bool := false
 
 structure Params.Ok (P : Params) : Prop where
   hρ : Injective P.ρ
   hν : Injective P.ν
   hγ : Injective P.γ
-  hT : P.sp = true → P.T P.bx
+  hT : P.sp = true → P.op = false → P.T P.bx
   hfix : ∀ x, ¬ Invented x → P.ρ x = x
+  hgx : P.op = true → P.sp = true ∧ ∀ j, P.γ j ≠ P.gx
 
 /-- the nodes a group refers to -/
 def gnodes : Grp → List Nat
@@ -78,11 +83,38 @@ theorem mapGrpAt_block_bx (hsp : P.sp = true) (cs : List Nat) :
     mapGrpAt P P.bx (.block cs) = .block (P.gx :: cs.map P.γ) := by
   simp [mapGrpAt, hsp]
 
-/-- an untainted block is not the special one -/
-theorem Params.Ok.ne_bx {P : Params} (ok : P.Ok) {j : Nat} (ht : ¬ P.T j) : j ≠ P.bx ∨ P.sp = false := by
+/-- an untainted block is not the special one (outside open mode) -/
+theorem Params.Ok.ne_bx {P : Params} (ok : P.Ok) (hop : P.op = false) {j : Nat} (ht : ¬ P.T j) :
+    j ≠ P.bx ∨ P.sp = false := by
   cases hsp : P.sp with
   | false => exact .inr rfl
-  | true => exact .inl (fun e => ht (e ▸ ok.hT hsp))
+  | true => exact .inl (fun e => ht (e ▸ ok.hT hsp hop))
+
+/-- a node without loose exit that stays so when a router is put behind it -/
+def NoLoose (n : NodeM) : Prop := n.hasLoose = false ∧ (n.kind = .basic → n.dexitDest ≠ Dest.none)
+
+theorem noLoose_rn {ρ : Uid → Uid} {n : NodeM} (h : NoLoose n) : NoLoose (rnNode ρ n) := by
+  refine ⟨by rw [rnNode_hasLoose]; exact h.1, fun hk => ?_⟩
+  have := h.2 hk
+  show rnDest ρ n.dexitDest ≠ Dest.none
+  cases hd : n.dexitDest with
+  | none => exact absurd hd this
+  | hard => intro e; cases e
+  | node u => intro e; cases e
+
+theorem noLoose_of_rn {ρ : Uid → Uid} {n : NodeM} (h : NoLoose (rnNode ρ n)) : NoLoose n := by
+  refine ⟨by have := h.1; rw [rnNode_hasLoose] at this; exact this, fun hk => ?_⟩
+  have := h.2 hk
+  intro e
+  apply this
+  show rnDest ρ n.dexitDest = Dest.none
+  rw [e]; rfl
+
+/-- the extra child of the special block, in open mode: a `no_op` group without router node whose
+parents are row groups all of whose nodes exist and have no loose exit -/
+def Inert (gx : Nat) (s : St) : Prop :=
+  ∃ ps, s.groups[gx]? = some (.noop ps none) ∧ ∀ p ∈ ps, ∃ nodes t, s.groups[p.1]? = some (.row nodes t) ∧
+    ∀ i ∈ nodes, ∃ n, s.nodes[i]? = some n ∧ NoLoose n
 
 theorem getElem?_push_lt' {α : Type} {a : Array α} {i : Nat} {x y : α} (h : a[i]? = some x) :
     (a.push y)[i]? = some x := by
@@ -119,6 +151,8 @@ structure ASim (s₁ s₂ : St) : Prop where
   fr1g : ∀ j, ¬ P.DG j → s₁.groups[j]? = P.base₁.groups[j]?
   fr2n : ∀ i', (∀ i, P.DN i → P.ν i ≠ i') → s₂.nodes[i']? = P.base₂.nodes[i']?
   fr2g : ∀ j', (∀ j, P.DG j → P.γ j ≠ j') → s₂.groups[j']? = P.base₂.groups[j']?
+  /-- open mode: the extra child on the right is inert -/
+  pl : P.op = true → Inert P.gx s₂
 
 variable {P}
 
@@ -149,12 +183,13 @@ theorem ASim.grp_lt {s₁ s₂ : St} (h : ASim P s₁ s₂) {j : Nat} {g : Grp} 
 /-- the same node is overwritten on both sides -/
 theorem ASim.setNode (ok : P.Ok) {s₁ s₂ : St} (h : ASim P s₁ s₂) {i : Nat} {old n' : NodeM}
     (hd : P.DN i) (ho : s₁.nodes[i]? = some old)
-    (hdx : n'.dexitUid = old.dexitUid ∨ Below s₁.next n'.dexitUid) :
+    (hdx : n'.dexitUid = old.dexitUid ∨ Below s₁.next n'.dexitUid)
+    (hpl : P.op = true → NoLoose old → NoLoose n') :
     ASim P { s₁ with nodes := s₁.nodes.setIfInBounds i n' }
       { s₂ with nodes := s₂.nodes.setIfInBounds (P.ν i) (rnNode P.ρ n') } := by
   have hlt : i < s₁.nodes.size := (Array.getElem?_eq_some_iff.mp ho).1
   have hlt2 := h.node_lt hd ho
-  refine { h with nsync := ?_, ndom := ?_, wf := ?_, dex := ?_, nodes := ?_, fr1n := ?_, fr2n := ?_, mono₁ := ?_, mono₂ := ?_ }
+  refine { h with nsync := ?_, ndom := ?_, wf := ?_, dex := ?_, nodes := ?_, fr1n := ?_, fr2n := ?_, mono₁ := ?_, mono₂ := ?_, pl := ?_ }
   · exact ⟨h.mono₁.1, by simpa using h.mono₁.2.1, h.mono₁.2.2⟩
   · exact ⟨h.mono₂.1, by simpa using h.mono₂.2.1, h.mono₂.2.2⟩
   · intro k; simpa using h.nsync k
@@ -192,13 +227,31 @@ theorem ASim.setNode (ok : P.Ok) {s₁ s₂ : St} (h : ASim P s₁ s₂) {i : Na
     have : ¬ P.ν i = j' := hj' i hd
     simp only [Array.getElem?_setIfInBounds, this, if_false]
     exact h.fr2n j' hj'
+  · intro hop
+    obtain ⟨ps, hgx, hps⟩ := h.pl hop
+    refine ⟨ps, hgx, fun p hp => ?_⟩
+    obtain ⟨nodes, t, hgp, hn⟩ := hps p hp
+    refine ⟨nodes, t, hgp, fun k hk => ?_⟩
+    obtain ⟨m, hm, hml⟩ := hn k hk
+    show ∃ n, (s₂.nodes.setIfInBounds (P.ν i) (rnNode P.ρ n'))[k]? = some n ∧ NoLoose n
+    rw [Array.getElem?_setIfInBounds]
+    by_cases hik : P.ν i = k
+    · subst hik
+      rw [if_pos rfl, if_pos hlt2]
+      refine ⟨_, rfl, ?_⟩
+      have e := h.nodes i old hd ho
+      rw [hm] at e
+      injection e with e
+      rw [e] at hml
+      exact noLoose_rn (hpl hop (noLoose_of_rn hml))
+    · rw [if_neg hik]; exact ⟨m, hm, hml⟩
 
 /-- a node is created on both sides -/
 theorem ASim.addNode {s₁ s₂ : St} (h : ASim P s₁ s₂) (n : NodeM)
     (hdx : Below s₁.next n.dexitUid ∨ ¬ Invented n.dexitUid) :
     ASim P { s₁ with nodes := s₁.nodes.push n } { s₂ with nodes := s₂.nodes.push (rnNode P.ρ n) } := by
   have h0 : P.ν s₁.nodes.size = s₂.nodes.size := by simpa using h.nsync 0
-  refine { h with nsync := ?_, ndom := ?_, wf := ?_, dex := ?_, nodes := ?_, fr1n := ?_, fr2n := ?_, mono₁ := ?_, mono₂ := ?_ }
+  refine { h with nsync := ?_, ndom := ?_, wf := ?_, dex := ?_, nodes := ?_, fr1n := ?_, fr2n := ?_, mono₁ := ?_, mono₂ := ?_, pl := ?_ }
   · exact ⟨h.mono₁.1, by have := h.mono₁.2.1; simp; omega, h.mono₁.2.2⟩
   · exact ⟨h.mono₂.1, by have := h.mono₂.2.1; simp; omega, h.mono₂.2.2⟩
   · intro k
@@ -235,6 +288,13 @@ theorem ASim.addNode {s₁ s₂ : St} (h : ASim P s₁ s₂) (n : NodeM)
     have : ¬ j' = s₂.nodes.size := fun e => hj' s₁.nodes.size (h.ndom _ (Nat.le_refl _)) (by rw [h0, e])
     simp only [Array.getElem?_push, this, if_false]
     exact h.fr2n j' hj'
+  · intro hop
+    obtain ⟨ps, hgx, hps⟩ := h.pl hop
+    refine ⟨ps, hgx, fun p hp => ?_⟩
+    obtain ⟨nodes, t, hgp, hn⟩ := hps p hp
+    refine ⟨nodes, t, hgp, fun k hk => ?_⟩
+    obtain ⟨m, hm, hml⟩ := hn k hk
+    exact ⟨m, getElem?_push_lt' hm, hml⟩
 
 /-- the same group is overwritten on both sides -/
 theorem ASim.setGrp (ok : P.Ok) {s₁ s₂ : St} (h : ASim P s₁ s₂) {j : Nat} {old g' : Grp}
@@ -242,7 +302,10 @@ theorem ASim.setGrp (ok : P.Ok) {s₁ s₂ : St} (h : ASim P s₁ s₂) {j : Nat
     (hn : ∀ i ∈ gnodes g', P.DN i) (hr : ∀ x ∈ grefs g', P.DG x)
     (ht : ¬ P.T j → ∀ x ∈ grefs g', ¬ P.T x)
     (hbn : P.hb → j = P.bx → ∃ c cs, g' = .block (c :: cs))
-    (hwf : (∀ i ∈ gnodes g', i < s₁.nodes.size) ∧ (∀ x ∈ grefs g', x < s₁.groups.size)) :
+    (hwf : (∀ i ∈ gnodes g', i < s₁.nodes.size) ∧ (∀ x ∈ grefs g', x < s₁.groups.size))
+    (hplg : P.op = true → ∀ nodes t, old = .row nodes t →
+      (∀ i ∈ nodes, ∀ n, s₁.nodes[i]? = some n → NoLoose n) → ∃ nodes', g' = .row nodes' t ∧
+      ∀ i ∈ nodes', i ∈ nodes ∨ (P.DN i ∧ ∃ n, s₁.nodes[i]? = some n ∧ NoLoose n)) :
     ASim P { s₁ with groups := s₁.groups.setIfInBounds j g' }
       { s₂ with groups := s₂.groups.setIfInBounds (P.γ j) (mapGrpAt P j g') } := by
   have hlt : j < s₁.groups.size := (Array.getElem?_eq_some_iff.mp ho).1
@@ -254,7 +317,7 @@ theorem ASim.setGrp (ok : P.Ok) {s₁ s₂ : St} (h : ASim P s₁ s₂) {j : Nat
     by_cases hjx : j = x
     · subst hjx; simp only [hlt, if_true, Option.some.injEq] at hx; exact .inl ⟨rfl, hx.symm⟩
     · simp only [hjx, if_false] at hx; exact .inr ⟨fun e => hjx e.symm, hx⟩
-  refine { h with gsync := ?_, gdom := ?_, bxlt := ?_, bne := ?_, wf := ?_, groups := ?_, closed := ?_, ra := ?_, fr1g := ?_, fr2g := ?_, mono₁ := ?_, mono₂ := ?_ }
+  refine { h with gsync := ?_, gdom := ?_, bxlt := ?_, bne := ?_, wf := ?_, groups := ?_, closed := ?_, ra := ?_, fr1g := ?_, fr2g := ?_, mono₁ := ?_, mono₂ := ?_, pl := ?_ }
   · exact ⟨h.mono₁.1, h.mono₁.2.1, by simpa using h.mono₁.2.2⟩
   · exact ⟨h.mono₂.1, h.mono₂.2.1, by simpa using h.mono₂.2.2⟩
   · intro k; simpa using h.gsync k
@@ -297,6 +360,46 @@ theorem ASim.setGrp (ok : P.Ok) {s₁ s₂ : St} (h : ASim P s₁ s₂) {j : Nat
     have : ¬ P.γ j = x' := hx' j hd
     simp only [Array.getElem?_setIfInBounds, this, if_false]
     exact h.fr2g x' hx'
+  · intro hop
+    obtain ⟨ps, hgx, hps⟩ := h.pl hop
+    refine ⟨ps, ?_, fun p hp => ?_⟩
+    · show (s₂.groups.setIfInBounds (P.γ j) _)[P.gx]? = _
+      rw [Array.getElem?_setIfInBounds, if_neg ((ok.hgx hop).2 j)]
+      exact hgx
+    · obtain ⟨nodes₂, t₂, hgp, hn⟩ := hps p hp
+      show ∃ nodes t, (s₂.groups.setIfInBounds (P.γ j) _)[p.1]? = some (.row nodes t) ∧ _
+      rw [Array.getElem?_setIfInBounds]
+      by_cases hjp : P.γ j = p.1
+      · rw [if_pos hjp, if_pos hlt2]
+        have e := h.groups j old hd ho
+        rw [hjp, hgp] at e
+        injection e with e
+        cases old with
+        | noop ps' r' => cases e
+        | block cs' =>
+          by_cases hb : j = P.bx ∧ P.sp = true
+          · simp only [mapGrpAt, hb, and_self, if_true] at e; cases e
+          · simp only [mapGrpAt, hb, if_false] at e; cases e
+        | row nodes t =>
+          rw [mapGrpAt_row] at e
+          injection e with e1 e2
+          have hn2 := hn
+          have hold : ∀ i ∈ nodes, ∀ n, s₁.nodes[i]? = some n → NoLoose n := by
+            intro i hi n hni
+            obtain ⟨m, hm, hml⟩ := hn2 (P.ν i) (by rw [e1]; exact List.mem_map_of_mem hi)
+            have := h.nodes i n ((h.closed j _ hd ho).1 i hi) hni
+            rw [hm] at this; injection this with this
+            rw [this] at hml
+            exact noLoose_of_rn hml
+          obtain ⟨nodes', rfl, hn'⟩ := hplg hop nodes t rfl hold
+          refine ⟨nodes'.map P.ν, t, by rw [mapGrpAt_row], fun k hk => ?_⟩
+          simp only [List.mem_map] at hk
+          obtain ⟨i, hi, rfl⟩ := hk
+          rcases hn' i hi with h1 | ⟨hdn, n, hni, hnl⟩
+          · exact hn2 (P.ν i) (by rw [e1]; exact List.mem_map_of_mem h1)
+          · exact ⟨_, h.nodes i n hdn hni, noLoose_rn hnl⟩
+      · rw [if_neg hjp]
+        exact ⟨nodes₂, t₂, hgp, hn⟩
 
 /-- a group is created on both sides -/
 theorem ASim.addGrp {s₁ s₂ : St} (h : ASim P s₁ s₂) (g : Grp)
@@ -304,6 +407,12 @@ theorem ASim.addGrp {s₁ s₂ : St} (h : ASim P s₁ s₂) (g : Grp)
     (hwf : (∀ i ∈ gnodes g, i < s₁.nodes.size) ∧ (∀ x ∈ grefs g, x < s₁.groups.size)) :
     ASim P { s₁ with groups := s₁.groups.push g } { s₂ with groups := s₂.groups.push (mapGrp P g) } := by
   have h0 : P.γ s₁.groups.size = s₂.groups.size := by simpa using h.gsync 0
+  have hpl' : P.op = true → Inert P.gx { s₂ with groups := s₂.groups.push (mapGrp P g) } := by
+    intro hop
+    obtain ⟨ps, hgx, hps⟩ := h.pl hop
+    refine ⟨ps, getElem?_push_lt' hgx, fun p hp => ?_⟩
+    obtain ⟨nodes, t, hgp, hn⟩ := hps p hp
+    exact ⟨nodes, t, getElem?_push_lt' hgp, hn⟩
   have hne : s₁.groups.size ≠ P.bx := by have := h.bxlt; omega
   have hm : mapGrpAt P s₁.groups.size g = mapGrp P g := by
     cases g <;> simp [mapGrpAt, mapGrp, hne]
@@ -314,7 +423,7 @@ theorem ASim.addGrp {s₁ s₂ : St} (h : ASim P s₁ s₂) (g : Grp)
     by_cases hxs : x = s₁.groups.size
     · simp only [hxs, if_true, Option.some.injEq] at hx; exact .inl ⟨hxs, hx.symm⟩
     · simp only [hxs, if_false] at hx; exact .inr ⟨hxs, hx⟩
-  refine { h with gsync := ?_, gdom := ?_, bxlt := ?_, bne := ?_, wf := ?_, groups := ?_, closed := ?_, ra := ?_, fr1g := ?_, fr2g := ?_, mono₁ := ?_, mono₂ := ?_ }
+  refine { h with gsync := ?_, gdom := ?_, bxlt := ?_, bne := ?_, wf := ?_, groups := ?_, closed := ?_, ra := ?_, fr1g := ?_, fr2g := ?_, mono₁ := ?_, mono₂ := ?_, pl := hpl' }
   · exact ⟨h.mono₁.1, h.mono₁.2.1, by have := h.mono₁.2.2; simp; omega⟩
   · exact ⟨h.mono₂.1, h.mono₂.2.1, by have := h.mono₂.2.2; simp; omega⟩
   · intro k
@@ -384,5 +493,6 @@ theorem ASim.congr {s₁ s₂ t₁ t₂ : St} (h : ASim P s₁ s₂)
   · rw [e2]; exact h.fr1g
   · rw [f1]; exact h.fr2n
   · rw [f2]; exact h.fr2g
+  · unfold Inert; rw [f1, f2]; exact h.pl
 
 end Rpft.Compile
